@@ -680,7 +680,9 @@ func (c *Change) Abort() {
 	for i, tid := range c.taskIDs {
 		tasks[i] = c.state.tasks[tid]
 	}
-	c.abortTasks(tasks, make(map[int]bool), make(map[string]bool))
+	var toHold []*Task
+	c.abortTasks(tasks, make(map[int]bool), make(map[string]bool), &toHold)
+	holdTasks(toHold)
 }
 
 // AbortLanes aborts all tasks in the provided lanes and any tasks waiting on them,
@@ -688,7 +690,9 @@ func (c *Change) Abort() {
 // on aborted).
 func (c *Change) AbortLanes(lanes []int) {
 	c.state.writing()
-	c.abortLanes(lanes, make(map[int]bool), make(map[string]bool))
+	var toHold []*Task
+	c.abortLanes(lanes, make(map[int]bool), make(map[string]bool), &toHold)
+	holdTasks(toHold)
 }
 
 // AbortUnreadyLanes aborts the tasks from lanes that aren't fully ready, where
@@ -714,7 +718,19 @@ func (c *Change) abortUnreadyLanes() {
 	for lane := range lanesWithLiveTasks {
 		abortLanes = append(abortLanes, lane)
 	}
-	c.abortLanes(abortLanes, make(map[int]bool), make(map[string]bool))
+	var toHold []*Task
+	c.abortLanes(abortLanes, make(map[int]bool), make(map[string]bool), &toHold)
+	holdTasks(toHold)
+}
+
+// holdTasks puts on hold the pending tasks collected by an abort. This is
+// done only once all other aborted tasks had their status changed: holding
+// them first could leave every task of the change ready for a moment, and
+// the change would be marked ready although tasks are about to be undone.
+func holdTasks(tasks []*Task) {
+	for _, t := range tasks {
+		t.SetStatus(HoldStatus)
+	}
 }
 
 // taskEffectiveStatus returns the 'effective' status. This means it accounts
@@ -729,7 +745,7 @@ func taskEffectiveStatus(t *Task) Status {
 	return status
 }
 
-func (c *Change) abortLanes(lanes []int, abortedLanes map[int]bool, seenTasks map[string]bool) {
+func (c *Change) abortLanes(lanes []int, abortedLanes map[int]bool, seenTasks map[string]bool, toHold *[]*Task) {
 	var hasLive = make(map[int]bool)
 	var hasDead = make(map[int]bool)
 	var laneTasks []*Task
@@ -740,7 +756,9 @@ NextChangeTask:
 		var live bool
 		switch taskEffectiveStatus(t) {
 		case DoStatus, DoingStatus, DoneStatus:
-			live = true
+			// tasks already aborted are dead, including the pending
+			// ones that are only put on hold at the end
+			live = !seenTasks[t.id]
 		}
 
 		for _, tlane := range t.Lanes() {
@@ -778,11 +796,11 @@ NextLaneTask:
 		abortedLanes[lane] = true
 	}
 	if len(abortTasks) > 0 {
-		c.abortTasks(abortTasks, abortedLanes, seenTasks)
+		c.abortTasks(abortTasks, abortedLanes, seenTasks, toHold)
 	}
 }
 
-func (c *Change) abortTasks(tasks []*Task, abortedLanes map[int]bool, seenTasks map[string]bool) {
+func (c *Change) abortTasks(tasks []*Task, abortedLanes map[int]bool, seenTasks map[string]bool, toHold *[]*Task) {
 	var lanes []int
 	for i := 0; i < len(tasks); i++ {
 		t := tasks[i]
@@ -792,8 +810,8 @@ func (c *Change) abortTasks(tasks []*Task, abortedLanes map[int]bool, seenTasks 
 		seenTasks[t.id] = true
 		switch taskEffectiveStatus(t) {
 		case DoStatus:
-			// Still pending so don't even start.
-			t.SetStatus(HoldStatus)
+			// Still pending so don't even start, see holdTasks.
+			*toHold = append(*toHold, t)
 		case DoingStatus:
 			// In progress so stop and undo it.
 			t.SetStatus(AbortStatus)
@@ -815,7 +833,7 @@ func (c *Change) abortTasks(tasks []*Task, abortedLanes map[int]bool, seenTasks 
 		}
 	}
 	if len(lanes) > 0 {
-		c.abortLanes(lanes, abortedLanes, seenTasks)
+		c.abortLanes(lanes, abortedLanes, seenTasks, toHold)
 	}
 }
 
